@@ -33,8 +33,8 @@ LEVEL_TEXT = (
     "semiring, no size bound), tensordot_chunking_irrelevant, contraction_tree_sum (the final sum as a K1 tree, any "
     "split_every); the tsqr stacking plan (stackGroups_flatten: groups are consecutive runs of all R blocks in order; "
     "stackGroups_nonempty; cumsumBlocks_spec: unstacking slices tile [0,Σ)); TSQR block algebra for two row blocks "
-    "over a commutative ring with Mathlib matrices (tsqr_two_blocks: QR = A; tsqr_two_blocks_orthonormal; svd_from_qr). "
-    "NOT proved: n-block/recursive TSQR as a whole, sfqr, einsum's index bookkeeping, and anything numerical — "
+    "over a commutative ring with Mathlib matrices (tsqr_two_blocks: QR = A; tsqr_two_blocks_orthonormal; svd_from_qr; "
+    "sfqr_two_blocks). NOT proved: n-block/recursive TSQR as a whole, einsum's index bookkeeping, and anything numerical — "
     "orthonormality, triangularity, residuals and singular values are validated against NumPy within tolerance."
 )
 LEVEL_NOTE = ("Trusted: np.tensordot/np.einsum/np.matmul on one block, LAPACK QR/SVD (np.linalg.qr/svd), NumPy as the "
